@@ -13,11 +13,14 @@ Record Inv2 (s : nstate) : Prop := {
   i_who : forall r, slot (PreparationPayloads s) (PrimaryIndex s) = Some r -> p_view r = ViewNumber s;
   i_pf : 0 < N s -> PrimaryIndex s = primary_of s (ViewNumber s) }.
 
+Definition HdrIsProposal (s : nstate) (h : hash) : Prop :=
+  exists b r, header s = Some b /\ h = block_hash b /\ slot (PreparationPayloads s) (PrimaryIndex s) = Some r /\
+              p_body r = B0 (BPrepareRequest (b_ts b) (b_nonce b) (b_hashes b)) /\
+              p_view r = ViewNumber s /\ b_index b = BlockIndex s /\ b_prev b = PrevHash s.
 Definition G2 (s : nstate) (c : call) : Prop :=
   match c with
-  | CProcessBlock h _ => exists b r, header s = Some b /\ h = block_hash b /\ slot (PreparationPayloads s) (PrimaryIndex s) = Some r /\
-                                    p_body r = B0 (BPrepareRequest (b_ts b) (b_nonce b) (b_hashes b)) /\
-                                    p_view r = ViewNumber s /\ b_index b = BlockIndex s /\ b_prev b = PrevHash s
+  | CProcessBlock h _ => HdrIsProposal s h
+  | CSign h => HdrIsProposal s h /\ slot (CommitPayloads s) (MyIndex s) = None
   | _ => True end.
 
 (* the invariant with the node's position and the view's primary frozen (every function outside the open recursion keeps them),
@@ -235,22 +238,30 @@ Proof. intros H s0 H0. apply (x_k2_last s0 x _ H H0). auto. Qed.
 Lemma Fr_refl s : Fr s s. Proof. repeat split. Qed.
 Lemma Fr_trans a b c : Fr a b -> Fr b c -> Fr a c. Proof. intros (?&?&?) (?&?&?). repeat split; congruence. Qed.
 
+(* the gate: the block handed over is the header, and the header carries the stored proposal's values *)
+Lemma G2_of_inv s b h : Inv2 s -> header s = Some b -> h = block_hash b -> HdrIsProposal s h.
+Proof.
+  intros [J1 J0 J2 J3 J4 J6 J5] Hh ->. destruct (J2 b Hh) as [r Hr]. destruct (req_body r (J3 r Hr)) as (ts & n & hs & Hb).
+  destruct (J4 r ts n hs Hr Hb) as (-> & -> & ->). destruct (J1 b Hh) as (E1 & E2 & E3). destruct (J0 b Hh) as (E4 & E5).
+  exists b, r. rewrite E1, E2, E3. pose proof (J6 r Hr). auto 10.
+Qed.
 (* MakeHeader: the header it returns is the node's header, built from the context while the proposal is held *)
 Lemma mh_spec s0 : Inv2 s0 ->
-  hx s0 (MakeHeader cfg) (fun r s tr => Inv2 s /\ trG G2 tr /\ Fr s0 s /\ (forall b, r = Some b -> header s = Some b)).
+  hx s0 (MakeHeader cfg) (fun r s tr => Inv2 s /\ trG G2 tr /\ Fr s0 s /\ (forall b, r = Some b -> header s = Some b) /\
+                                        CommitPayloads s = CommitPayloads s0).
 Proof.
   intros H0. unfold MakeHeader. apply x_get. destruct (header s0) as [b0|] eqn:Eh.
-  { apply x_ret. split; [exact H0|split; [apply trG_nil|split; [apply Fr_refl|intros b [= <-]; exact Eh]]]. }
+  { apply x_ret. split; [exact H0|split; [apply trG_nil|split; [apply Fr_refl|split; [intros b [= <-]; exact Eh|reflexivity]]]]. }
   unfold RequestSentOrReceived. apply x_assoc. apply x_get. apply x_assoc. apply x_tget. intros x Hi Hx. apply x_ret_bind.
-  destruct (negb (isSome x)) eqn:Er. { apply x_ret. split; [exact H0|split; [apply trG_nil|split; [apply Fr_refl|discriminate]]]. }
-  destruct (_ && _). { apply x_ret. split; [exact H0|split; [apply trG_nil|split; [apply Fr_refl|discriminate]]]. }
+  destruct (negb (isSome x)) eqn:Er. { apply x_ret. split; [exact H0|split; [apply trG_nil|split; [apply Fr_refl|split; [discriminate|reflexivity]]]]. }
+  destruct (_ && _). { apply x_ret. split; [exact H0|split; [apply trG_nil|split; [apply Fr_refl|split; [discriminate|reflexivity]]]]. }
   apply x_ask. intros ok c Hc. apply sel_NewBlock in Hc. subst c. destruct ok.
-  - apply x_modify. apply x_ret. split; [|split; [trs2|split; [repeat split|intros b [= <-]; reflexivity]]].
+  - apply x_modify. apply x_ret. split; [|split; [trs2|split; [repeat split|split; [intros b [= <-]; reflexivity|reflexivity]]]].
     destruct H0 as [J1 J0 J2 J3 J4 J6 J5]. constructor; unfold N, primary_of in *; cbn in *; try assumption.
     + intros b [= <-]. cbn. auto.
     + intros b [= <-]. cbn. auto.
     + intros b _. destruct x as [r|]; [|discriminate Er]. exists r. apply (slot_nth _ _ _ Hi Hx).
-  - apply x_ret. split; [exact H0|split; [trs2|split; [apply Fr_refl|discriminate]]].
+  - apply x_ret. split; [exact H0|split; [trs2|split; [apply Fr_refl|split; [discriminate|reflexivity]]]].
 Qed.
 Lemma h_MakeHeader : k2 (MakeHeader cfg).
 Proof. apply k2_of_spec. intros s0 H0. eapply x_conseq; [apply (mh_spec s0 H0)|]. cbn. intros r s n (A & B & C & _). auto. Qed.
@@ -261,7 +272,7 @@ Lemma cb_spec s0 : Inv2 s0 ->
 Proof.
   intros H0. unfold CreateBlock. apply x_get. destruct (block_set s0).
   { apply x_ret. split; [exact H0|split; [apply trG_nil|split; [apply Fr_refl|intros b Hb; exact Hb]]]. }
-  eapply x_call; [apply (mh_spec s0 H0)|]. intros hb s1 n1 (I1 & T1 & F1 & Hh). cbn beta. destruct hb as [b|].
+  eapply x_call; [apply (mh_spec s0 H0)|]. intros hb s1 n1 (I1 & T1 & F1 & Hh & _). cbn beta. destruct hb as [b|].
   - apply x_get. cbv zeta. apply x_modify. apply x_ret. split; [|split; [trs2|split; [exact F1|intros b' [= <-]; reflexivity]]].
     specialize (Hh b eq_refl). destruct I1 as [J1 J0 J2 J3 J4 J6 J5]. constructor; unfold N, primary_of in *; cbn in *; try assumption.
     + intros b' [= <-]. cbn. apply (J1 b Hh).
@@ -273,14 +284,20 @@ Lemma h_CreateBlock : k2 (CreateBlock cfg).
 Proof. apply k2_of_spec. intros s0 H0. eapply x_conseq; [apply (cb_spec s0 H0)|]. cbn. intros r s n (A & B & C & _). auto. Qed.
 Hint Resolve h_CreateBlock : kpdb.
 
+(* the only signature request: for the hash of the node's header, while the node's own Commit slot is empty *)
 Lemma h_makeCommit : k2 (makeCommit cfg).
 Proof.
-  apply k2_of_spec. intros s0 H0. unfold makeCommit. apply x_get. apply x_tget. intros own _ _.
+  apply k2_of_spec. intros s0 H0. unfold makeCommit. apply x_get. apply x_tget. intros own Hi Hown.
   destruct own as [m|]; [apply x_ret; split; [exact H0|split; [apply trG_nil|apply Fr_refl]]|].
-  eapply x_call; [apply (mh_spec s0 H0)|]. intros hb s1 n1 (I1 & T1 & F1 & Hh). cbn beta. destruct hb as [b|]; [|apply x_ret; split; [exact I1|split; [trs2|exact F1]]].
-  unfold ask_unit. apply x_ask. intros [] c Hc. apply x_get. cbv zeta. apply x_modify. apply x_ret.
-  split; [|split; [rewrite ?app_nil_r; apply trG_app; [exact T1|apply trG_cons; [destruct c; try discriminate Hc; exact I|apply trG_nil]]|exact F1]].
-  specialize (Hh b eq_refl). destruct I1 as [J1 J0 J2 J3 J4 J6 J5]. constructor; unfold N, primary_of in *; cbn in *; try assumption.
+  eapply x_call; [apply (mh_spec s0 H0)|]. intros hb s1 n1 (I1 & T1 & F1 & Hh & C1). cbn beta. destruct hb as [b|]; [|apply x_ret; split; [exact I1|split; [trs2|exact F1]]].
+  specialize (Hh b eq_refl).
+  unfold ask_unit. apply x_ask. intros [] c Hc.
+  assert (Gc : G2 s1 c).
+  { destruct c; try discriminate Hc. cbn. destruct (hash_eqb bh (block_hash b)) eqn:E; [|discriminate Hc]. apply hash_eqb_eq in E.
+    split; [apply (G2_of_inv s1 b _ I1 Hh E)|]. destruct F1 as (F1a & _). rewrite C1, F1a. apply (slot_nth _ _ _ Hi Hown). }
+  apply x_get. cbv zeta. apply x_modify. apply x_ret.
+  split; [|split; [trs2|exact F1]].
+  destruct I1 as [J1 J0 J2 J3 J4 J6 J5]. constructor; unfold N, primary_of in *; cbn in *; try assumption.
   - intros b' [= <-]. cbn. apply (J1 b Hh).
   - intros b' [= <-]. cbn. apply (J0 b Hh).
   - intros b' _. apply (J2 b Hh).
@@ -290,13 +307,6 @@ Lemma h_sendCommit : k2 (sendCommit cfg). Proof. unfold sendCommit. k2_go. Qed.
 Lemma h_verifyCommits : k2 (verifyCommitPayloadsAgainstHeader cfg). Proof. unfold verifyCommitPayloadsAgainstHeader. k2_go. Qed.
 Hint Resolve h_sendCommit h_verifyCommits : kpdb.
 
-(* the gate: the block handed over is the header, and the header carries the stored proposal's values *)
-Lemma G2_of_inv s b h e : Inv2 s -> header s = Some b -> h = block_hash b -> G2 s (CProcessBlock h e).
-Proof.
-  intros [J1 J0 J2 J3 J4 J6 J5] Hh ->. destruct (J2 b Hh) as [r Hr]. destruct (req_body r (J3 r Hr)) as (ts & n & hs & Hb).
-  destruct (J4 r ts n hs Hr Hb) as (-> & -> & ->). destruct (J1 b Hh) as (E1 & E2 & E3). destruct (J0 b Hh) as (E4 & E5).
-  exists b, r. rewrite E1, E2, E3. pose proof (J6 r Hr). auto 10.
-Qed.
 Lemma h_checkCommit : k2 (checkCommit cfg).
 Proof.
   apply k2_of_spec. intros s0 H0. unfold checkCommit. apply x_get.
@@ -484,8 +494,6 @@ Proof.
   intros Hh [n Hp] Hpf. assert (Hs : slot (PreparationPayloads s) (PrimaryIndex s) = None) by (rewrite Hp; apply slot_empty).
   split; [|exact Hs]. constructor; rewrite ?Hh, ?Hs; try discriminate. exact Hpf.
 Qed.
-Lemma G2_other s c : match c with CProcessBlock _ _ => False | _ => True end -> G2 s c.
-Proof. destruct c; intros H; try exact I. destruct H. Qed.
 Ltac g2sel := match goal with H : _ = Some _ |- G2 _ ?c => destruct c; try exact I; discriminate H end.
 Ltac trs3 := rewrite ?app_nil_r; repeat first [ assumption | apply trG_nil | apply trG_app | apply trG_cons; [first [assumption|exact I|g2sel]|] ].
 
@@ -741,6 +749,15 @@ Proof.
   intros HR Hs Hin. pose proof (proposal_history _ _ _ _ _ HR Hs) as HT.
   unfold trG in HT. rewrite Forall_forall in HT. pose proof (HT _ Hin) as Hg. cbn in Hg. destruct Hg as (b & r & A & B & C & D & E & F & G).
   exists b, r. split; [exact A|split; [exact B|split; [exact C|split; [eapply body_req; exact D|auto]]]].
+Qed.
+(* the node asks for a signature only for the hash of its header, which is the proposal of its view, and only while its
+   own Commit slot is empty *)
+Corollary signature_only_for_the_proposal_while_uncommitted st ev sc st' tr s h :
+  Reach cfg st -> step cfg st ev sc = Ok (st', tr) -> In (s, CSign h) tr ->
+  HdrIsProposal s h /\ slot (CommitPayloads s) (MyIndex s) = None.
+Proof.
+  intros HR Hs Hin. pose proof (proposal_history _ _ _ _ _ HR Hs) as HT.
+  unfold trG in HT. rewrite Forall_forall in HT. exact (HT _ Hin).
 Qed.
 (* the primary's slot is the one of the view's primary *)
 Corollary primary_slot_is_the_view_primary st : Reach cfg st -> 0 < N st -> PrimaryIndex st = primary_of st (ViewNumber st).
